@@ -63,6 +63,7 @@ struct ev_spec {
 struct emu_ev;
 
 int ev_spec_compile(struct ev_spec *spec, struct ev_decl *decl);
+int ev_spec_check_payload(struct ev_spec *spec, struct emu_ev *ev);
 int ev_spec_print(struct ev_spec *spec, struct emu_ev *ev, char *outbuf, int outlen);
 struct ev_arg *ev_spec_find_arg(struct ev_spec *spec, const char *name);
 
